@@ -143,8 +143,13 @@ class schur_pressure_correction {
                     switch (pattern[0]) {
                         case '%':
                             {
-                                int start  = std::atoi(pattern.substr(1).c_str());
-                                int stride = std::atoi(pattern.substr(3).c_str());
+                                size_t colon = pattern.find(':');
+                                precondition(colon != std::string::npos,
+                                        "pmask_pattern should have the form %start:stride");
+                                int start  = std::atoi(pattern.substr(1, colon - 1).c_str());
+                                int stride = std::atoi(pattern.substr(colon + 1).c_str());
+                                precondition(start >= 0 && stride > 0,
+                                        "pmask_pattern should have the form %start:stride");
                                 for(size_t i = start; i < n; i += stride) pmask[i] = 1;
                             }
                             break;
